@@ -66,6 +66,7 @@ func (s *Server) Initialize(ctx context.Context, params *lsp.InitializeParams) (
 }
 
 func (s *Server) DidOpen(ctx context.Context, params *lsp.DidOpenTextDocumentParams) error {
+	verifPoint("didOpen")
 	s.logger.Info("opened",
 		zap.String("filename", params.TextDocument.URI.Filename()),
 		zap.Uint32("version", uint32(params.TextDocument.Version)),
@@ -86,6 +87,7 @@ func (s *Server) DidSave(ctx context.Context, params *lsp.DidSaveTextDocumentPar
 }
 
 func (s *Server) DidChange(ctx context.Context, params *lsp.DidChangeTextDocumentParams) error {
+	verifPoint("didChange")
 	filename := params.TextDocument.URI.Filename()
 	content := params.ContentChanges[0].Text
 	s.docs[filename] = &document{
@@ -96,6 +98,7 @@ func (s *Server) DidChange(ctx context.Context, params *lsp.DidChangeTextDocumen
 }
 
 func (s *Server) DidClose(ctx context.Context, params *lsp.DidCloseTextDocumentParams) error {
+	verifPoint("didClose")
 	filename := params.TextDocument.URI.Filename()
 	delete(s.docs, filename)
 	s.logger.Info("closed", zap.String("filename", params.TextDocument.URI.Filename()))
@@ -125,6 +128,7 @@ func (s *Server) typecheck(ctx context.Context, uri lsp.DocumentURI, version uin
 		// nil and empty arrays are marshalled differently.
 		res = []lsp.Diagnostic{}
 	}
+	verifPoint("publish")
 	return s.client.PublishDiagnostics(ctx, &lsp.PublishDiagnosticsParams{
 		URI:         uri,
 		Version:     version,
@@ -135,6 +139,7 @@ func (s *Server) typecheck(ctx context.Context, uri lsp.DocumentURI, version uin
 func keepGoing(err tm.SyntaxError) bool { return true }
 
 func (s *Server) Definition(ctx context.Context, params *lsp.DefinitionParams) (result []lsp.Location, err error) {
+	verifPoint("definition")
 	filename := params.TextDocument.URI.Filename()
 	doc := s.docs[filename]
 	if doc == nil {
